@@ -211,10 +211,39 @@ def field_mutants(node: Any) -> list[tuple[str, Any]]:
             nv = mutate_value(v, name, node)
             out.append((name, reflect.replace_field(node, **{name: nv})))
         except Skip:
-            continue
+            pass
         except Exception:  # noqa: BLE001
-            continue
+            pass
+        # key-set variants of mapping-valued fields: one more key / one key less (a one-sided
+        # comparison `all(k in other ...)` accepts a sub-mapping)
+        for sub, mp, setter in _mappings(name, v):
+            keys = sorted(mp, key=repr)
+            if not keys:
+                continue
+            variants = []
+            k0 = keys[-1]
+            if isinstance(k0, str):
+                variants.append((f"{sub}+key", {**dict(mp), k0 + "_zz": mp[k0]}))
+            if len(keys) >= 2:
+                variants.append((f"{sub}-key", {k: mp[k] for k in keys[:-1]}))
+            for vname, nm in variants:
+                try:
+                    out.append((vname, reflect.replace_field(node, **{name: setter(nm)})))
+                except Exception:  # noqa: BLE001 -- constructor refuses
+                    continue
     return out
+
+
+def _mappings(name: str, v: Any) -> list[tuple[str, Any, Any]]:
+    """[(sub-path, mapping, setter(new mapping) -> new field value)] for a field value."""
+    t = reflect.T()
+    if isinstance(v, Mapping):
+        return [(name, v, lambda nm, _t=type(v): _t(nm))]
+    if isinstance(v, t["FunctionDefinition"]):
+        from constantdict import constantdict
+        return [(f"{name}.returns", v.returns,
+                 lambda nm, _v=v: dataclasses.replace(_v, returns=constantdict(nm)))]
+    return []
 
 
 def substitute(root: Any, old: Any, new: Any) -> Any:
